@@ -486,6 +486,7 @@ class VisitOutputData(VC):
             I.inline.add("jinja2.compiler:CodeGenerator." + q)
         I.inline.add("jinja2.nodes:TemplateData.as_const")
         I.inline.add("jinja2.nodes:get_eval_context")
+        I.inline.add("jinja2.compiler:has_safe_repr")  # real body: a str / Markup constant has a safe repr
         c = self
 
         def written(tag):
